@@ -457,11 +457,30 @@ class Run:
             if state["final"] is None and not self.kinds[:-1]:
                 rec.discarded = f"first evaluation: {type(err).__name__}: {str(err)[:60]}"
                 return
+            # does a pristine instantiation with a one-evaluation history fail the same way?  Then the scheme
+            # itself cannot produce a Result (e.g. zero degrees of freedom) - not a matter of history.
+            ref_err = None
+            try:
+                fresh = workloads.build_scheme(self.plan["spec"])
+                self.seams.driver = S.ScriptedDriver([[0.0]], 0)
+                self.seams.reset(None)
+                sys.stdout = S.StdoutSentinel()
+                with warnings.catch_warnings():
+                    warnings.simplefilter("ignore")
+                    optimize(fresh, verbose=False, raise_exception=True)
+            except Exception as e:  # noqa: BLE001
+                ref_err = e
+            finally:
+                sys.stdout = old
+            if ref_err is not None and type(ref_err) is type(err):
+                rec.stat("result_unbuildable_for_pristine_scheme_too")
+                rec.discarded = f"scheme cannot produce a Result: {type(err).__name__}: {str(err)[:50]}"
+                return
             rec.violate(
                 "C10/create-result-raises",
                 "purity",
                 f"optimize() with the scripted history raised {type(err).__name__}: {err} although every "
-                f"fault-free evaluation agreed with the reference",
+                f"fault-free evaluation agreed with the reference and a pristine scheme yields a Result",
             )
             return
         self.check_inputs("segment")
